@@ -68,7 +68,9 @@ def obligations():
             if ordered:
                 post.append(A('g_k < 0 || g_k >= cnt || seq[g_k] == (%s)' % ordered.replace('%%', '%').replace('(unsigned long)k', '(unsigned long)g_k'), 'reports the definition order', n))
             mh = MeshHarness(args=args, call=call, post='\n'.join(post), op='none', pre=pre, snap='  witness(&o, c, laps, 0, 0);\n  COVER(1, "reachable");')
-            qf = ['C05'] if sh == shapes[0] else []
+            # quick tier: one cheap shape per circulator (measured < 60 s each); the rest is thorough only
+            QUICK = {'vhf_iter': 'open', 'hfe_iter': None, 'hfv_iter': None, 'fv_iter': None, 'che_iter': None, 'cv_iter': None, 'ce_iter': None, 'vv_iter': 'open'}
+            qf = ['C05'] if sh == QUICK.get(name, shapes[0]) else []
             obs.append(Ob(id='C05.circ.' + n, props=['C05', 'C20', 'C01'], quick_for=qf, tu='kernel', tier='B', roots=ROOTS_BUILD, harness=mh,
                           includes=['wf.h', 'view.h', 'add_spec.h', 'query_spec.h', 'circ_spec.h', 'shapes.h'], copies=[TK], defines=dict(DEFS), unwind=(44 if name in ('ce_iter', 'che_iter') else 26), unwind_start=8, covers=1, timeout=1500,
                           inits={'tk_init': TK}, prebuild_shape=SHAPES[sh], bounds=dict(shape=sh, centre='all handles of the shape (symbolic)', laps='1..2'),
